@@ -16,6 +16,7 @@ ASSUMPTIONS = [
     "'a child its rule does not allow' = a child name that does not occur in the children section of the parent's rule",
     "reference model, top-down: drop children that are unknown or not allowed, skip metadata content, recurse; strict: after a child's "
     "own pruning drop it if the real validate.node rejects it (single-node validation itself is judged by C01-C04)",
+    "planting includes editing the public children list directly (the planted unknown element then has no parent link, or a stale one)",
     "removed subtree roots = nodes no longer reachable from the root that no other unreachable node still lists",
 ]
 REQUIRED = ["prunes_at_inner_node", "prunes", "prunes_strict", "prunes_removing", "offender_below_parent_with_own_error", "second_prunes", "model_agreements",
@@ -100,13 +101,25 @@ def plant(rng, gen):
         nodes = treegen.all_nodes(t)
         n = rng.choice(nodes)
         kind = rng.choice(["unknown", "misplaced", "invalid_content", "bad_attr", "allowed_unknown", "repeat", "error_parent_plus_offender",
-                           "junk_in_metadata", "mutate", "typed_content"])
+                           "junk_in_metadata", "mutate", "typed_content", "listed_only"])
         if kind == "unknown":
             c = Node(rng.choice(["verifUnknown", "referencePublication", "usageCitation"]), content=rng.choice([None, "x"]))
             if rng.random() < 0.4:
                 c.add_child(Node("title", content="below unknown"))
             c.tail = rng.choice([None, None, " text after the element", "\n    "])
             n.add_child(c, rng.randint(0, len(n.children)))
+        elif kind == "listed_only":
+            # planted by editing the children list itself (a public, mutable list): the unknown element is listed by its parent and
+            # has no parent link of its own, or still carries the link to the place it was taken from
+            judged = anytrees.judged_nodes(t)
+            n = rng.choice([x for x in judged if x.name != "metadata"] or [t])
+            c = Node(rng.choice(["verifUnknown", "referencePublication"]), content=rng.choice([None, "x"]))
+            if rng.random() < 0.5:
+                other = Node("verifFormerParent")
+                other.add_child(c)
+            n.children.insert(rng.randint(0, len(n.children)), c)
+            log.append("listed_only")
+            continue
         elif kind == "misplaced":
             c = Node(rng.choice(list(gen.known)), content=rng.choice([None, "x"]))
             c.tail = rng.choice([None, None, " text after the element", "\n    "])
